@@ -13,6 +13,8 @@ SOURCES = [
     "def 0 {{ if (debug) {{ forever {{ a({m0}); break_loop; }} }} else {{ with (actor 1) {{ w({m1}); }} }} end; }}\ndef 1 {{ z({m2}); }}",
     "def 0 {{ a(/* c */ {m0} /* d */, // line\n {m1}); end; }}",
     "coro A {{ a({m0}); {m0_op}; end; }}",
+    "def 0 {{ if (BranchExecuteSub({m0}) || $A == 1) {{ a(); }} elseif (BranchSum({m1})) {{ b(); }} while (BranchExecuteSub({m2}, 1)) {{ w(); }} end; }}",
+    "def 0 {{ for ($I = 0; BranchSum({m0}, 2); $I += 1;) {{ x({m1}); }} switch ($V) {{ case 1: y({m2}); }} end; }}",
 ]
 MARKS = [
     ["Position<'m', 1, 2>", "Position<\"n\", 3.5, -4>", "Position<'o', -1.5, 0.50>"],
@@ -74,7 +76,8 @@ def task(name: str, item: Any) -> dict[str, Any]:
             return fail(f"listing entry {m} has no equal compiled parameter")
     # replacement of exactly the span by the printed form of an edited mark
     for k, (a, b) in enumerate(spans):
-        edited = SsbOpParamPositionMarker(f"edit{k}", 2, 0, 40 + k, -7)
+        # edited marks include a negative tile with a half-tile offset (the spelling -7.5 means tile -7 plus a half)
+        edited = SsbOpParamPositionMarker(f"edit{k}", 2, 2 if k % 2 else 0, 40 + k if k % 3 else -3 - k, -7)
         new_text = text[:a] + str(edited) + text[b + 1:]
         try:
             c2 = compile_text(new_text)
@@ -110,7 +113,7 @@ def replay(name: str, item_repr: str, witness: Any) -> bool:
 
 def run(tier: str, seed: int, known: list[dict[str, Any]]) -> dict[str, Any]:
     r = trun.run_family("C18", "C18.E3", task, items(), known, None,
-                        bounds="7 source shapes x 3 literal spellings (multi-line, comments, number bases, macro bodies)")
+                        bounds="9 source shapes x 3 literal spellings (multi-line, comments, number bases, macro bodies)")
     r["headline"] = (f"{r['programs']} sources through the real parser: listing delimits every literal in source order and "
                      f"{r['discharged']} in-place replacements change exactly that parameter; {r['disagreements_checked']} violations")
     return r
